@@ -42,10 +42,13 @@ def rule_line_index(ctx, rep):
                     ln, fd = kw.get("lineNumber"), kw.get("findings")
                     if ln is None or fd is None:
                         continue
-                    look = [x for x in ast.walk(fd) if isinstance(x, ast.Call) and last_attr(x.func) == "get_findings_for_location" and x.args]
-                    if not look:
-                        continue
+                    look = [x for x in ast.walk(r.expand(fd)) if isinstance(x, ast.Call) and last_attr(x.func) == "get_findings_for_location" and x.args]
                     n += 1
+                    if not look:
+                        rep.check("R-LINE-INDEX-AGREE", fn.qname, fn.loc(c), False, f"lineNumber={unparse(ln)}",
+                                  f"findings of the change come from `{unparse(fd)[:50]}` instead of file_context.get_findings_for_location(<its line>): "
+                                  "findings that share or span the line are lost or misattributed")
+                        continue
                     e2 = look[0].args[0]
                     ok = _same(ctx, fn, ln, e2)
                     rep.check("R-LINE-INDEX-AGREE", fn.qname, fn.loc(c), ok, f"lineNumber={unparse(ln)}",
@@ -232,6 +235,58 @@ def rule_optional_format(ctx, rep):
         rep.instance("R-OPTIONAL-FORMAT", XML_MOD, "src/codemodder/codemods/xml_transformer.py:1", True, detail="no Optional parameter is interpolated into emitted text")
 
 
+def rule_raw_write_flush(ctx, rep):
+    rep.rule(
+        "R-RAW-WRITE-FLUSH",
+        "SAX handlers of XMLTransformer that write markup directly (self._write) bypass XMLGenerator's pending start tag: either they "
+        "flush it first (_finish_pending_start_element) or no construction site enables short_empty_elements (with it, a comment/CDATA "
+        "right after a start tag is written inside the tag)",
+        min_instances=2,
+    )
+    c = ctx.prog.cls(XMLT)
+    raw = []
+    for cq in [XMLT] + sorted(ctx.prog.all_subclasses(XMLT)):
+        for name, m in ctx.prog.classes[cq].methods.items():
+            calls = {last_attr(x.func) for x in walk_no_nested(m.node) if isinstance(x, ast.Call)}
+            if "_write" in calls and "_finish_pending_start_element" not in calls:
+                raw.append(m)
+    if not raw:
+        rep.instance("R-RAW-WRITE-FLUSH", XMLT, c.loc(), True, detail="every raw-writing handler flushes the pending start tag")
+        return
+    # defaults and construction sites
+    n = 0
+    for cq in [XMLT] + sorted(ctx.prog.all_subclasses(XMLT)):
+        init = ctx.prog.classes[cq].methods.get("__init__")
+        if init is None:
+            continue
+        a = init.node.args
+        names = [x.arg for x in a.args]
+        if "short_empty_elements" in names:
+            idx = names.index("short_empty_elements") - (len(names) - len(a.defaults))
+            d = a.defaults[idx] if 0 <= idx < len(a.defaults) else None
+            n += 1
+            ok = isinstance(d, ast.Constant) and d.value is False
+            rep.check("R-RAW-WRITE-FLUSH", init.qname, init.loc(), ok, "default",
+                      f"short_empty_elements defaults to `{unparse(d) if d is not None else '?'}` while {', '.join(m.name for m in raw[:4])} write markup without flushing the pending start tag")
+    for fn in ctx.prog.functions.values():
+        if not fn.module.name.startswith(("codemodder.", "core_codemods.")):
+            continue
+        for call in walk_no_nested(fn.node):
+            if isinstance(call, ast.Call):
+                kw = next((k for k in call.keywords if k.arg == "short_empty_elements"), None)
+                if kw is None:
+                    continue
+                if isinstance(call.func, ast.Attribute) and last_attr(call.func) == "__init__":
+                    continue  # forwarding to the base constructor
+                n += 1
+                ok = isinstance(kw.value, ast.Constant) and kw.value.value is False or (isinstance(kw.value, ast.Name) and kw.value.id == "short_empty_elements")
+                rep.check("R-RAW-WRITE-FLUSH", fn.qname, fn.loc(call), ok, "construction-site",
+                          f"`{unparse(call)[:60]}` enables short_empty_elements although {', '.join(m.name for m in raw[:4])} write raw markup: "
+                          "`<a><!-- c --></a>` is emitted as `<a<!-- c -->\n>`")
+    if n < 2:
+        raise AnalysisError("short_empty_elements parameter of the XML transformers not found")
+
+
 def rule_shared(ctx, rep):
     """Re-evaluate the shared rules restricted to the two pipelines (their verdicts belong to C19 too)."""
     from ..report import Report
@@ -261,5 +316,6 @@ def check(ctx, rep):
     rule_one_append(ctx, rep)
     rule_cdata_state(ctx, rep)
     rule_optional_format(ctx, rep)
+    rule_raw_write_flush(ctx, rep)
     rule_shared(ctx, rep)
     rep.not_covered += ["XML infoset equality through expat / XMLGenerator", "locator column arithmetic", "byte identity of untouched lines beyond 'the line itself is appended'"]
